@@ -73,10 +73,11 @@ template <class T> std::string resave(T& v) { std::string out; SaveObject<JsonAr
 std::string run_op(const Op& op, const Shared& sh) {
 	try {
 		SerializationOptions opt; opt.streamOptions.encoding = static_cast<Convert::Utf::UtfType>(op.enc); opt.streamOptions.writeBom = op.bom;
+		if (op.arg & 1) { opt.formatOptions.enableFormat = true; opt.formatOptions.paddingChar = (op.arg & 2) ? '\t' : ' '; opt.formatOptions.paddingCharNum = static_cast<uint16_t>(1 + (op.arg >> 2) % 20); }   // thread-local options: pretty printing with its own padding
 		switch (op.kind) {
 		case OpSaveMp: { Cls c = sh.cls[op.which]; std::string out; SaveObject<MsgPackArchive>(c, out); return out; }
-		case OpSaveJs: { Cls c = sh.cls[op.which]; std::string out; SaveObject<JsonArchive>(c, out); return out; }       // default options: the shared DefaultOptions object
-		case OpSaveXm: { Cls c = sh.cls[op.which]; std::string out; SaveObject<XmlArchive>(c, out); return out; }
+		case OpSaveJs: { Cls c = sh.cls[op.which]; std::string out; if (op.arg & 8) SaveObject<JsonArchive>(c, out, opt); else SaveObject<JsonArchive>(c, out); return out; }       // default options: the shared DefaultOptions object
+		case OpSaveXm: { Cls c = sh.cls[op.which]; std::string out; if (op.arg & 8) SaveObject<XmlArchive>(c, out, opt); else SaveObject<XmlArchive>(c, out); return out; }
 		case OpSaveCs: { auto r = sh.rows; std::string out; SaveObject<CsvArchive>(r, out); return out; }
 		case OpSaveMpStream: { Cls c = sh.cls[op.which]; std::ostringstream os; SaveObject<MsgPackArchive>(c, os); return os.str(); }
 		case OpSaveJsStream: { Cls c = sh.cls[op.which]; std::ostringstream os; SaveObject<JsonArchive>(c, os, opt); return os.str(); }
